@@ -1,12 +1,191 @@
-(* C18 — Nothing is written outside the designated roots. (theorems follow) *)
-From Apko Require Import Base.Prelude Base.C18Path Generated.C18 Spec.ConfineSpec Model.Confine.
+(* C18 — Nothing is written outside the designated roots.
+   Property theorems only; each is closed by [exact] of a lemma proved in
+   Proofs/ConfineProofs.v and followed by Print Assumptions.  Strings are byte
+   lists ([str]); [cc s] are the components of filepath.Clean(s); [under r p]
+   = same rootedness and [cc r] is a component-wise prefix of [cc p].
+   Constants named etag_*, check_*, key_*, keyname_*, *_max_links are the ones
+   goextract read from the Go sources on this run. *)
+From Apko Require Import Base.Prelude Base.C18Path Generated.C18 Spec.ConfineSpec Model.Confine
+  Proofs.ConfineProofs.
+Open Scope list_scope.
 
-(* the shape of every prefix test, as goextract read it from the source on this run *)
+(* the shape of every prefix test in the source: which side is filepath.Clean'ed
+   and whether the test guards the reject branch *)
 Theorem c18_prefix_test_shapes :
   check_sanitize_path = (true, false, false) /\
   check_sanitize_archive_path = (false, true, false) /\
   check_dirfs_link = (false, false, true) /\
   check_cache_file_from_etag = (false, false, true) /\
-  check_cache_path_from_url = (false, false, true).
+  check_cache_path_from_url = (false, false, true) /\
+  key_last_is_base = true.
 Proof. repeat split; reflexivity. Qed.
 Print Assumptions c18_prefix_test_shapes.
+
+(* filepath.Clean is idempotent and keeps rootedness (all byte strings) *)
+Theorem c18_clean_idempotent : forall p, clean (clean p) = clean p /\ is_abs (clean p) = is_abs p.
+Proof. intro p. split; [apply clean_idem | apply clean_abs]. Qed.
+Print Assumptions c18_clean_idempotent.
+
+(* For every absolute base and EVERY name p: the components of
+   clean(join(base,p)) are base's, minus as many as p climbs ([ups p] = number of
+   leading ".." of p read as a relative path), followed by where p then descends
+   ([downs p]); hence the result is under base iff p re-enters through exactly
+   the components it left — in particular always when p does not climb. *)
+Theorem c18_clean_join_under : forall base p, is_abs base = true ->
+  cc (join [base; p]) = firstn (List.length (cc base) - ups p) (cc base) ++ downs p /\
+  (under base (join [base; p]) <->
+   cprefix (skipn (List.length (cc base) - ups p) (cc base)) (downs p)) /\
+  (ups p = 0 -> under base (join [base; p])).
+Proof.
+  intros base p H. split; [apply cc_join_abs; assumption|].
+  split; [apply clean_join_under; assumption | apply no_climb_under; assumption].
+Qed.
+Print Assumptions c18_clean_join_under.
+
+Example c18_clean_join_under_ex :
+  under (la "/r") (join [la "/r"; la "a/../b//./c"]) /\
+  ups (la "../r2/x") = 1 /\ ~ under (la "/r") (join [la "/r"; la "../r2/x"]) /\
+  under (la "/r") (join [la "/r"; la "../r/x"]).
+Proof.
+  repeat split.
+  - apply underb_iff. vm_compute. reflexivity.
+  - intro U. apply underb_iff in U. vm_compute in U. discriminate.
+  - apply underb_iff. vm_compute. reflexivity.
+Qed.
+
+(* c18_sanitize_sound — "a path accepted by sanitizePath / sanitizeArchivePath /
+   dirFS.Link's test is under its base" — is FALSE: the tests compare strings.
+   Witness base "/r", name "../r2/x" (for Link: base "/T/root", "../root2/secret"). *)
+Theorem c18_sanitize_sound_refuted :
+  (exists b p v, sanitize_path b p = Some v /\ ~ under b v) /\
+  (exists d t v, sanitize_archive_path d t = Some v /\ ~ under d v) /\
+  (exists b old t, link_target b old = Some t /\ ~ under b t).
+Proof. exact (conj sanitize_path_unsound (conj sanitize_archive_path_unsound link_target_unsound)). Qed.
+Print Assumptions c18_sanitize_sound_refuted.
+
+(* c18_sanitize_sound_partial (the tests ARE sound when the base ends in a
+   separator, or when no component shares a string prefix with the base's last
+   component) is stated in notes/C18.md and NOT proved; what is proved about
+   accepted names is the lexical characterisation c18_clean_join_under above
+   and, below, confinement of names that do not climb. *)
+
+(* Every ETag header value (any bytes, any number of values) that
+   etagFromResponse accepts becomes a non-empty name over the generated
+   alphabet plus padding; with either generated extension it is one proper
+   path component, and the file cacheFileFromEtag returns for it lies directly
+   in the cache directory of the file it belongs to. *)
+Theorem c18_etag_safe : forall hdr e,
+  etag_from_response hdr = Some e ->
+  Forall etag_char e /\ e <> [] /\
+  forall cwd f p,
+    is_abs (fst (etag_dir_ext f)) = true ->
+    cache_file_from_etag cwd f e = Some p ->
+    proper (e ++ snd (etag_dir_ext f)) /\ is_abs p = true /\
+    cc p = cc (fst (etag_dir_ext f)) ++ [e ++ snd (etag_dir_ext f)].
+Proof.
+  intros hdr e H. destruct (etag_from_response_chars hdr e H) as [F NE].
+  split; [assumption|]. split; [assumption|].
+  intros cwd f p HA HC. exact (etag_file_in_dir hdr e cwd f p H HA HC).
+Qed.
+Print Assumptions c18_etag_safe.
+
+Example c18_etag_safe_ex :
+  exists e p, etag_from_response (Some [la """../../../etc/passwd"""]) = Some e /\
+    cache_file_from_etag (la "/cwd") (la "/t/cache/repo/x86_64/APKINDEX.tar.gz") e = Some p /\
+    dir p = la "/t/cache/repo/x86_64/APKINDEX".
+Proof. eexists _, _. split; [vm_compute; reflexivity|]. split; vm_compute; reflexivity. Qed.
+
+(* the alphabet in the source contains neither '/' nor '.' *)
+Theorem c18_etag_alphabet_safe : forallb safe_char (la etag_alphabet ++ [pad_char]) = true.
+Proof. exact etag_alphabet_safe. Qed.
+Print Assumptions c18_etag_alphabet_safe.
+
+(* c18_cache_path, full statement: for every cache root and every URL whose
+   path is absolute (what the callers produce), provided the printed repository
+   URL contains a '/', the cache path is at or below the root:
+       is_abs root -> is_abs path -> In sl ustr ->
+       cache_path_from_url root ustr path = Some p -> under root p.
+   Proved here as _partial with the hypothesis [is_abs path] replaced by what the
+   proof uses of it: the arch-directory name base(dir(path)) is not "..".  (dir
+   returns a cleaned path, so its base never is "..": that lemma about
+   base-after-render is the missing part; the correspondence stage checks
+   [underb root p] on every observed output with an absolute or empty path.)
+   The path may BE the root: finding C18-F4, refuted form below. *)
+Theorem c18_cache_path_partial : forall root ustr path p,
+  is_abs root = true -> In sl ustr -> is_dd (base (dir path)) = false ->
+  cache_path_from_url root ustr path = Some p ->
+  under root p.
+Proof. exact cache_path_under_root_partial. Qed.
+Print Assumptions c18_cache_path_partial.
+
+Example c18_cache_path_ex :
+  cache_path_from_url (la "/t/cache") (la "https://h/repo") (la "/repo/x86_64/../../../a.apk")
+    = Some (la "/t/cache/https%3A%2F%2Fh%2Frepo/a.apk") /\
+  is_dd (base (dir (la "/repo/x86_64/../../../a.apk"))) = false.
+Proof. split; vm_compute; reflexivity. Qed.
+
+Theorem c18_cache_path_is_root_refuted :
+  exists root ustr path e p,
+    cache_path_from_url root ustr path = Some root /\
+    etag_from_response (Some [la "abc"]) = Some e /\
+    cache_file_from_etag (la "/") root e = Some p /\ ~ under root p.
+Proof. exact cache_path_can_be_root. Qed.
+Print Assumptions c18_cache_path_is_root_refuted.
+
+(* InitKeyring stores every key under etc/apk (never above it), and under
+   etc/apk/keys/<one component> whenever the base name of the key location is
+   a proper component; a key name accepted by parseRepositoryIndex contains no
+   separator. *)
+Theorem c18_key_basename : forall element,
+  under (la "etc/apk") (key_path element) /\
+  (proper (base element) ->
+   cc (key_path element) = map la key_dir_elems ++ [base element]) /\
+  (forall k, keyname_ok k = true -> no_slash k).
+Proof.
+  intro e. split; [apply key_path_under|]. split.
+  - apply key_path_proper.
+  - apply keyname_ok_no_slash.
+Qed.
+Print Assumptions c18_key_basename.
+
+Example c18_key_basename_ex :
+  key_path (la "https://keys.example/a/b/..") = la "etc/apk" /\
+  key_path (la "https://keys.example/k.rsa.pub") = la "etc/apk/keys/k.rsa.pub".
+Proof. split; vm_compute; reflexivity. Qed.
+
+(* In both in-memory filesystems every successful lookup — any path, any tree,
+   any symlink targets, any depth — returns the root or a descendant of the root
+   along child edges; ".." is an ordinary child name. *)
+Theorem c18_memtree_closed : forall fuel root path depth n,
+  (get_node fuel memfs_max_links root path depth = LOk n -> sub root n) /\
+  (get_node fuel tarfs_max_links root path depth = LOk n -> sub root n) /\
+  (forall ch, lookup_child ch dd = None ->
+     get_node (S fuel) memfs_max_links (NDir ch) dd 0 = LNotExist).
+Proof.
+  intros. split; [apply get_node_sub|]. split; [apply get_node_sub|].
+  intros ch H. apply dotdot_is_a_name. assumption.
+Qed.
+Print Assumptions c18_memtree_closed.
+
+(* c18_dirfs_confined — "every host path a dirFS method touches is under its
+   base" — is FALSE, lexically (C18-F1: WriteFile "../escaped.txt") and through
+   the kernel's link resolution (C18-F2: Symlink "/T/host" "l"; WriteFile "l/x"). *)
+Theorem c18_dirfs_confined_refuted :
+  (exists b name, is_abs b = true /\ ~ under b (dirfs_host_path b name)) /\
+  (exists b links name,
+     under b (dirfs_host_path b name) /\ Forall (fun l => under b (fst l)) links /\
+     ~ under b (resolve 4 links (dirfs_host_path b name))).
+Proof. exact (conj dirfs_lexical_escape dirfs_symlink_escape). Qed.
+Print Assumptions c18_dirfs_confined_refuted.
+
+(* what does hold: names that do not climb are lexically confined *)
+Theorem c18_dirfs_confined_partial : forall b name,
+  is_abs b = true -> ups name = 0 -> under b (dirfs_host_path b name).
+Proof. exact dirfs_confined_when_not_climbing. Qed.
+Print Assumptions c18_dirfs_confined_partial.
+
+(* the validator run on the canary tree's snapshot diff decides confinement *)
+Theorem c18_validator_decides : forall roots touched,
+  escapes roots touched = [] <-> Confined roots touched.
+Proof. exact escapes_nil_iff. Qed.
+Print Assumptions c18_validator_decides.
